@@ -192,6 +192,9 @@ def plan(ctx):
     # const-expression programs: many constants of every type, deeper expressions biased to boundary values, returned as a tuple
     m = 1200 if tier == "quick" else 12000
     items += [{"kind": "constexpr", "seeds": [seed * 100000 + 6000000 + i + k for k in range(40)], "cap": 20.0} for i in range(0, m, 40)]
+    # repeat-literal sizes that are constants of value 0..3 (0 half of the time), as local arrays
+    z = 120 if tier == "quick" else 1200
+    items += [{"kind": "sizezero", "seeds": [seed * 100000 + 7000000 + i + k for k in range(20)], "cap": 20.0} for i in range(0, z, 20)]
     return items
 
 
@@ -210,6 +213,38 @@ def constexpr_program(seed):
     return prog, cg
 
 
+def sizezero_program(seed):
+    """`[elem; N]` with a usize constant N in 0..3 (0 half of the time) used as a local value: iterated over, indexed,
+    copied. Zero-length arrays appear only as locals (zero-sized parameters / results belong to C05)."""
+    rng = random.Random(seed)
+    want = rng.choice([0, 0, 0, 1, 2, 3])
+    cg = ConstGen(rng, [want])
+    name, n = cg.declare(USIZE, small=True)
+    x, i = Var("x", U16), Var("i", USIZE)
+    ety = rng.choice([U16, TTup([U16, BOOL]), TArr(U16, 2)])
+    elem = x if ety is U16 else (TupLit([x, Lit(BOOL, 1)]) if isinstance(ety, TTup) else ArrLit([x, Bin("^", x, Lit(U16, 1))]))
+    arr = Var("arr", TArrC(ety, n, name))
+    r, cnt = Var("r", U16), Var("cnt", U8)
+    stmts = [Let(PVar("arr"), ArrRep(elem, n, size_src=name)) if rng.random() < 0.7 else LetMut("arr", ArrRep(elem, n, size_src=name)),
+             LetMut("r", Lit(U16, 7)), LetMut("cnt", Lit(U8, 0))]
+    e = Var("e", ety)
+    ev = e if ety is U16 else (TupGet(e, 0) if isinstance(ety, TTup) else Index(e, Lit(USIZE, 1)))
+    body = [Assign("r", U16, [], ev, rng.choice(["^", "+"])), Assign("cnt", U8, [], Lit(U8, 1), "+")]
+    stmts.append(For(PVar("e"), arr, body))
+    k = rng.random()
+    if k < 0.35:
+        el = Index(arr, i)
+        stmts.append(Assign("r", U16, [], el if ety is U16 else (TupGet(el, 0) if isinstance(ety, TTup) else Index(el, Lit(USIZE, 0))), "^"))
+    elif k < 0.5:
+        el = Index(arr, Lit(USIZE, 0))
+        stmts.append(Assign("r", U16, [], el if ety is U16 else (TupGet(el, 0) if isinstance(ety, TTup) else Index(el, Lit(USIZE, 0))), "^"))
+    if rng.random() < 0.4:
+        stmts.append(Assign("r", U16, [], Bin("/", Lit(U16, 100), x), "+"))
+    ret = TupLit([r, cnt])
+    prog = Program([FnDef("main", [("x", U16, False), ("i", USIZE, False)], ret.ty, Block(stmts, ret), pub=True)], [], [], [(nm, t, s_) for nm, t, s_, v in cg.decls])
+    return prog, cg
+
+
 def substituted_source(prog):
     """the twin program: every constant replaced by its value, const declarations removed"""
     lang.SUBST = {n: (t, v) for n, t, v in prog._const_values}
@@ -225,6 +260,8 @@ def check_one(drv, seed, cap, st, out, kind=None):
     size_values = rng.choice([[1, 2, 3], [1, 2, 3, 4], [1, 2]])
     if kind == "constexpr":
         prog, cg = constexpr_program(seed)
+    elif kind == "sizezero":
+        prog, cg = sizezero_program(seed)
     else:
         prog, cg = generate(seed, size_values)
     prog._const_values = [(n, t, v) for n, t, s, v in cg.decls]
@@ -356,5 +393,5 @@ def summarize(ctx, items, results):
            "functions_encoded": ["compile.rs compile_with_constants / resolve_const_expr_* (run natively, result circuit encoded)", "eval.rs resolve_const_type (parameter shapes)"]}
     return {"violations": viol, "errors": errors, "inconclusive": st.unknown, "inconclusive_limit": max(2, st.queries // 50), "coverage": cov,
             "level": "translation_validation",
-            "assumptions": ["constant assignments are seeded (boundary values of each type); inputs are symbolic", "array sizes 0 are not generated here (zero-sized parameters belong to C05)"] + common.BASE_ASSUMPTIONS[:3],
+            "assumptions": ["constant assignments are seeded (boundary values of each type); inputs are symbolic", "parameter / result array sizes 0 are not generated here (zero-sized parameters belong to C05); repeat-literal sizes 0 are, as local arrays"] + common.BASE_ASSUMPTIONS[:3],
             "headline": "%d const programs (%d compiled, %d twins, %d error trials), %d queries (%d undecided)" % (tot["programs"], tot["compiled"], tot["twins"], tot["error_trials"], st.queries, st.unknown)}
